@@ -36,7 +36,9 @@ import (
 func init() { core.Register("C18", core.Scenario{Run: Run, Replay: Replay}) }
 
 const (
-	proxyName = "fwdverif"
+	// long on purpose: the instance tag is <name>-<20 hex digits>, and its uniqueness must not depend on
+	// the name being short
+	proxyName = "fwdverif-eu-central-1-staging-edge-proxy-01"
 	// placeholders in recorded cases: the instance tags are drawn at start-up and differ per run
 	phTag = "{TAG}"
 )
@@ -337,6 +339,13 @@ func (e *env) runChain(ctx *core.Ctx, cc *chainCase) {
 	class := knownClass(linesPH)
 	req := instantiate(cc.Request, e.cfg.Tag)
 	lines := viaLinesOf(req.Fields)
+	if nominatesVia(req.Fields) {
+		// `Connection: via` makes the client's Via a hop-by-hop field: it is removed before this
+		// instance adds its own element, so the chain this instance sees is empty
+		lines = nil
+		class = ""
+		ctx.Count("via-nominated-by-connection")
+	}
 	id := idOf(req)
 	wire := req.Wire()
 
@@ -1225,4 +1234,19 @@ func Replay(ctx *core.Ctx, raw json.RawMessage) {
 	p := newPools(ctx)
 	defer p.closeAll()
 	p.run(ctx, raw)
+}
+
+// nominatesVia reports whether a Connection field line of the request names Via.
+func nominatesVia(fs []rig.Field) bool {
+	for _, f := range fs {
+		if !strings.EqualFold(f.Name, "Connection") {
+			continue
+		}
+		for _, t := range strings.Split(f.Value, ",") {
+			if strings.EqualFold(strings.TrimSpace(t), "via") {
+				return true
+			}
+		}
+	}
+	return false
 }
